@@ -61,3 +61,35 @@ def run (step : Proc → Op → Proc × Out) : Proc → List Op → Proc × List
     (p'', o :: os)
 
 end GeoVerif
+
+namespace GeoVerif
+
+/-- the abstract specification: a process is its working directory and its files; a request is answered by simulating
+the *current* content of the file — no cache, no argv, no history -/
+structure SpecProc where
+  cwd : String
+  files : List (String × String)
+
+def specRead (s : SpecProc) (path : String) : String := ((s.files.find? (·.1 == path)).map (·.2)).getD ""
+
+def specStep (sim : String → Option String) (s : SpecProc) : Op → SpecProc × Out
+  | .rewrite path content => ({ s with files := (path, content) :: s.files }, .none)
+  | .chdir d => ({ s with cwd := d }, .none)
+  | .request path _ => (s, match sim (specRead s path) with | some r => .report r | none => .failed)
+
+def specRun (sim : String → Option String) : SpecProc → List Op → SpecProc × List Out
+  | s, [] => (s, [])
+  | s, op :: ops =>
+    let (s', o) := specStep sim s op
+    let (s'', os) := specRun sim s' ops
+    (s'', o :: os)
+
+def Proc.abs (p : Proc) : SpecProc := ⟨p.cwd, p.files⟩
+
+/-- memoisation (`functools.lru_cache`): look the argument up in a table, otherwise compute and remember -/
+def memo (f : String → String) (tbl : List (String × String)) (x : String) : String × List (String × String) :=
+  match tbl.find? (·.1 == x) with
+  | some e => (e.2, tbl)
+  | none => (f x, (x, f x) :: tbl)
+
+end GeoVerif
